@@ -1,5 +1,5 @@
 (** C16 — proofs about Model/Peatclsm.v. *)
-From Coq Require Import Reals List ZArith Lra Lia.
+From Coq Require Import Reals List ZArith QArith Qreals Lra Lia.
 From Coquelicot Require Import Coquelicot.
 From Spowtd Require Import Model.Util Model.Transm Model.Peatclsm Proofs.TransmSpec.
 Import ListNotations.
@@ -609,5 +609,67 @@ Proof.
     specialize (Hf Hpre). lra. }
   unfold sy_knot. rewrite Hval in Hc.
   apply Rabs_le_between in Hc. apply Rabs_le_between in Ht. apply Rabs_le_between in Hv.
+  apply Rabs_le. lra.
+Qed.
+
+(** * Exact rational evaluation of the tabulated form *)
+
+Lemma Q2R_Qred : forall q, Q2R (Qred q) = Q2R q.
+Proof. intros q. apply Qeq_eqR. apply Qred_correct. Qed.
+
+Lemma Q2R_sumQ : forall l, Q2R (sumQ l) = fold_right Rplus 0 (map Q2R l).
+Proof.
+  induction l as [|x l IH].
+  - unfold Q2R; simpl. lra.
+  - change (sumQ (x :: l)) with (Qred (x + sumQ l)).
+    rewrite Q2R_Qred, Q2R_plus, IH. reflexivity.
+Qed.
+
+Lemma Q2R_1_100 : Q2R (1 # 100) = 1 / 100.
+Proof. unfold Q2R; simpl. lra. Qed.
+
+Lemma Q2R_one : Q2R 1 = 1.
+Proof. unfold Q2R; simpl. lra. Qed.
+
+Lemma Q2R_inject_Z : forall z, Q2R (inject_Z z) = IZR z.
+Proof. intros z. unfold Q2R, inject_Z; simpl. lra. Qed.
+
+Lemma Q2R_layer_tabQ : forall Th Phi i j,
+  Q2R (layer_tabQ Th Phi i j) = layer_tab (fun k => Q2R (Th k)) (fun j => Q2R (Phi j)) i j.
+Proof.
+  intros Th Phi i j. unfold layer_tabQ, layer_tab.
+  rewrite Q2R_Qred, Q2R_mult, Q2R_minus, !Q2R_mult, !Q2R_minus, Q2R_1_100, Q2R_one, dz_const.
+  reflexivity.
+Qed.
+
+Lemma Q2R_sy_knot_tabQ : forall Th Phi N i,
+  Q2R (sy_knot_tabQ Th Phi N i) = sy_knot_tab (fun k => Q2R (Th k)) (fun j => Q2R (Phi j)) N i.
+Proof.
+  intros Th Phi N i. unfold sy_knot_tabQ, sy_knot_tab.
+  rewrite Q2R_plus, Q2R_mult, Q2R_sumQ, map_map.
+  rewrite (map_ext _ _ (Q2R_layer_tabQ Th Phi i)).
+  replace (Q2R 100) with 100 by (unfold Q2R; simpl; lra).
+  reflexivity.
+Qed.
+
+(** The acceptance test of the case files is sound. *)
+Theorem knot_enclosure_Q : forall p PhiQ ThQ N i eps eta M ths v tol,
+  admissible p ->
+  (0 <= i < Z.of_nat N)%Z ->
+  (forall j, In j (layers N) -> Rabs (Fs p j - Q2R (PhiQ j)) <= Q2R eps) ->
+  (forall j, In j (layers N) -> Rabs (1 - Q2R (PhiQ j)) <= Q2R M) ->
+  (forall k, In k (offsets N) -> Rabs (theta_at p k - Q2R (ThQ k)) <= Q2R eta) ->
+  theta_s p = Q2R ths ->
+  knot_checkQ ThQ PhiQ N i eps eta M ths v tol = true ->
+  Rabs (sy_knot p N i - Q2R v) <= Q2R tol.
+Proof.
+  intros p PhiQ ThQ N i eps eta M ths v tol Hadm Hi Hphi HM Hth Hths Hchk.
+  unfold knot_checkQ in Hchk. apply andb_prop in Hchk. destruct Hchk as [H1 H2].
+  apply Qle_bool_imp_le, Qle_Rle in H1. apply Qle_bool_imp_le, Qle_Rle in H2.
+  rewrite !Q2R_minus, !Q2R_mult, Q2R_plus, !Q2R_mult, !Q2R_inject_Z, Q2R_one in H1, H2.
+  replace (Q2R 2) with 2 in H1, H2 by (unfold Q2R; simpl; lra).
+  rewrite Q2R_sy_knot_tabQ in H1, H2. rewrite <- Hths in H1, H2.
+  apply (knot_enclosure_tab p (fun j => Q2R (PhiQ j)) (fun k => Q2R (ThQ k)) N i
+           (Q2R eps) (Q2R eta) (Q2R M) (Q2R v) (Q2R tol)); try assumption.
   apply Rabs_le. lra.
 Qed.
